@@ -9,5 +9,6 @@ open RV.C17
 #print axioms trie_inv_insert
 #print axioms longest_in_histories
 #print axioms generated_prefix_fresh
+#print axioms document_names_expand
 #print axioms old_nonoverride_bind_breaks_bijection
 #print axioms colon_prefix_not_expandable
